@@ -1,11 +1,14 @@
 #!/usr/bin/env python3
 """runs the designated checks (quick tier) on every seeded change and writes seeded/MATRIX.json.
-usage: seed_matrix.py [ids...]   -- applies seeded/<id>/patch.diff to /repo, runs, reverts (git checkout -- .)"""
+usage: seed_matrix.py [ids...]
+Default: a scratch worktree of /repo's HEAD (/tmp/seedwt, removed at the end) receives each patch and the checks are pointed at it with
+QUARA_REPO, so /repo itself stays usable meanwhile.  SEED_IN_PLACE=1: apply to /repo itself and revert with git checkout -- . (what
+tools/run_on_mutant.sh does for a single change)."""
 import json, os, subprocess, sys, time
 V = os.path.dirname(os.path.dirname(os.path.abspath(__file__)))
 PY = os.path.join(V, ".venv/bin/python")
 EXTRA = {"C05_m2": ["c04"], "C10_m1": ["c04"], "C10_m2": ["c04"], "C11_m1": ["c12"], "C11_m2": ["c12"], "C16_m2": ["c06"],
-         "C11_m3": ["c12"], "C11_m4": ["c12"]}
+         "C10_m4": ["c05"], "C10_m3": ["c04"]}
 
 
 def sh(*a, **kw):
@@ -13,15 +16,32 @@ def sh(*a, **kw):
 
 
 def main():
+    global TARGET
+    if not os.environ.get("SEED_IN_PLACE"):
+        TARGET = "/tmp/seedwt"
+        sh("git", "-C", "/repo", "worktree", "remove", "--force", TARGET)
+        if sh("git", "-C", "/repo", "worktree", "add", "--detach", TARGET, "HEAD").returncode != 0:
+            sys.exit("cannot create scratch worktree")
+    try:
+        run()
+    finally:
+        if TARGET != "/repo":
+            sh("git", "-C", "/repo", "worktree", "remove", "--force", TARGET)
+
+
+TARGET = "/repo"
+
+
+def run():
     ids = sys.argv[1:] or sorted(d for d in os.listdir(os.path.join(V, "seeded")) if os.path.isdir(os.path.join(V, "seeded", d)))
     path = os.path.join(V, "seeded", "MATRIX.json")
     matrix = json.load(open(path)) if os.path.exists(path) else {}
-    env = dict(os.environ, VERIF_TASK_TIMEOUT=os.environ.get("VERIF_TASK_TIMEOUT", "900"), VERIF_EVIDENCE_DIR="/tmp/seed_evidence")
+    env = dict(os.environ, VERIF_TASK_TIMEOUT=os.environ.get("VERIF_TASK_TIMEOUT", "900"), VERIF_EVIDENCE_DIR="/tmp/seed_evidence", QUARA_REPO=TARGET)
     for mid in ids:
         patch = os.path.join(V, "seeded", mid, "patch.diff")
-        if sh("git", "-C", "/repo", "diff", "--quiet").returncode != 0:
-            sys.exit("/repo has local changes")
-        if sh("git", "-C", "/repo", "apply", patch).returncode != 0:
+        if sh("git", "-C", TARGET, "diff", "--quiet").returncode != 0:
+            sys.exit(TARGET + " has local changes")
+        if sh("git", "-C", TARGET, "apply", patch).returncode != 0:
             matrix[mid] = {"error": "patch does not apply"}
             continue
         row = {}
@@ -40,7 +60,7 @@ def main():
                             "obligations": viol[:12], "seconds": round(time.time() - t0, 1)}
                 print(mid, chk, "exit", r.returncode, f"{time.time() - t0:.0f}s", flush=True)
         finally:
-            sh("git", "-C", "/repo", "checkout", "--", ".")
+            sh("git", "-C", TARGET, "checkout", "--", ".")
         matrix[mid] = row
         json.dump(matrix, open(path, "w"), indent=1, sort_keys=True)
 
